@@ -40,6 +40,10 @@ def generate(ctx, hexe, plan):
                 g.rel(arg)
             elif profile == "realsat":
                 g.realsat(arg)
+            elif profile == "negrel":
+                g.negrel(False)
+            elif profile == "negrel_realsat":
+                g.negrel(True)
             elif profile == "retighten":
                 g.retighten()
             elif profile == "prepend":
@@ -122,14 +126,25 @@ def protocol_ok(theory, cmds, outs):
     return True
 
 
-def shrink(cmds, still_fails, budget=120):
-    """greedy removal of single commands / chunks (never the init line); still_fails(cmds) -> bool"""
+_SHRINK_SPENT = [0.0]
+
+
+def shrink(cmds, still_fails, budget=120, seconds=12.0):
+    """greedy removal of single commands / chunks (never the init line); still_fails(cmds) -> bool.
+    Bounded in attempts and in time (per call, and 60 s for a whole run: later findings are reported unshrunk)."""
+    import time as _t
     cur = list(cmds)
     chunk = max(1, len(cur) // 4)
-    while chunk >= 1 and budget > 0:
+    t0 = _t.time()
+    if _SHRINK_SPENT[0] > 60.0:
+        return cur
+
+    def spent():
+        return _t.time() - t0 > seconds
+    while chunk >= 1 and budget > 0 and not spent():
         i = 1
         changed = False
-        while i < len(cur) and budget > 0:
+        while i < len(cur) and budget > 0 and not spent():
             cand = cur[:i] + cur[i + chunk:]
             budget -= 1
             if len(cand) >= 1 and still_fails(cand):
@@ -139,6 +154,7 @@ def shrink(cmds, still_fails, budget=120):
                 i += chunk
         if not changed:
             chunk //= 2
+    _SHRINK_SPENT[0] += _t.time() - t0
     return cur
 
 
@@ -330,7 +346,7 @@ def compare_and_judge(ctx, hexe, oexe, hists, guard, owns, do_diff=True):
     owns(signature) -> bool: which judge signatures belong to the property being checked."""
     stats = {"histories": 0, "commands": 0, "diffed_commands": 0, "mismatching_commands": 0, "mismatches_attributed_to_implementation": 0,
              "judge_state_checks": 0, "judge_clause_checks": 0, "judge_rel_checks": 0, "judge_query_checks": 0, "cells_checked": 0,
-             "model_faults": 0, "distinct_states": 0, "agreeing_commands": 0, "deep_searches": 0, "deep_search_hits": 0}
+             "model_faults": 0, "judge_relation_network_checks": 0, "distinct_states": 0, "agreeing_commands": 0, "deep_searches": 0, "deep_search_hits": 0}
     seen_sig = set()
     states = set()
     gline = guard if isinstance(guard, str) else "guard %d" % (1 if guard else 0)
@@ -357,6 +373,7 @@ def compare_and_judge(ctx, hexe, oexe, hists, guard, owns, do_diff=True):
         stats["judge_clause_checks"] += j.n_clause_checks
         stats["judge_rel_checks"] += j.n_rel_checks
         stats["judge_query_checks"] += j.n_query_checks
+        stats["judge_relation_network_checks"] += j.n_rel_network_checks
         stats["cells_checked"] += j.cells_checked
         viol = list(j.viol)
         if rc not in (0, None) and not viol:
